@@ -317,6 +317,13 @@ def check(ctx):
     with ctx.shared({"C07.R1": ("C05.R8", "the expiry check runs before every connection attempt, so a connection opened after the data expired starts "
                                 "with a Reset Query whether or not the attempt succeeds")}):
         C07.r1(ctx)
+    from specs import C04
+    with ctx.shared({"C04.R5": ("C05.R9", "the query bytes reach the transport in order and completely: the write-until-complete loop continues behind the "
+                                "bytes already written (a 12-byte Serial Query split by the transport still carries its serial number)"),
+                     "C04.R3": ("C05.R10", "Error Reports of every legal size are accepted (16 bytes without encapsulated PDU and text included), so that "
+                                "'No Data Available' reaches its handler and a Reset Query follows")}):
+        C04.r5(ctx, retsets)
+        C04.r2_r3(ctx)
     ctx.not_decided("serial-number arithmetic (none exists in the code: values are copied and compared for equality only)")
     ctx.not_decided("that the bytes reach the peer unchanged through a user transport")
 
